@@ -75,7 +75,7 @@ PROPS = {
     "C12": {"level": "exploration", "assumptions": MP_ASSUME + ["sink faults are injected by call ordinal on mock sinks; the real file recorder's own failure modes are exercised by the e2e checks"],
             "parts": [{"engine": "mp", "test": "TestVF_C12", "quick": (4, 1000), "thorough": (16, 30000)},
                       {"engine": "mp", "test": "TestVF_C12_SingleFault", "quick": (4, 60), "thorough": (16, 1500), "shrinktime": "5s"}]},
-    "C16": {"level": "exploration", "assumptions": BASE_ASSUME + ["the harness does not own the Go scheduler: interleavings are those produced under generated perturbation (GOMAXPROCS, spins, yields, pauses); the race detector reports races on executions that occur", "ring capacity >= 2 (preview-secs*fps + trigger-frames >= 2)", "the D-Bus transport itself is not run: the service methods are called directly"],
+    "C16": {"level": "exploration", "assumptions": BASE_ASSUME + ["the harness does not own the Go scheduler: interleavings are those produced under generated perturbation (GOMAXPROCS, spins, yields, pauses); the race detector reports races on executions that occur", "the D-Bus transport itself is not run: the service methods are called directly"],
             "parts": [{"engine": "e2e", "race": True, "test": "TestVF_C16", "quick": (4, 40), "thorough": (16, 500), "shrinktime": "15s", "quick_timeout": 600}]},
     "C17": {"level": "exploration", "assumptions": MP_ASSUME,
             "parts": [{"engine": "mp", "test": "TestVF_C17", "quick": (4, 750), "thorough": (16, 25000)},
